@@ -19,8 +19,9 @@ ASSUMPTIONS = ["vf/vlog.py implements IEEE 1364-2005 5.4/5.5/9.5 for the emitted
                "x/z: an out-of-range memory read is X in Verilog; it is compared separately (text_eq_sim_oor_address) and not claimed",
                "Engine A == litex.gen.sim.core (validated against the real simulator; every divergence is replayed on the real simulator)",
                "one-step equivalence from arbitrary COMMON state: registers are identified through the real ConvOutput.ns names, memory words index by index"]
-BOUNDS = {"quick": "grammar: all depth-1 programs over 8 leaves in 5 contexts + depth-2 programs with a reduced set of sibling leaves; corpus of 30 cores; memory matrix 3 modes x we-granularity x async/sync x init, depth 4 and 5",
-          "thorough": "grammar: depth-2 programs with all sibling leaves and all contexts; corpus also at second parameterisation; memory matrix with 2 ports per memory and 2 clock domains"}
+BOUNDS = {"quick": "expression grammar: all depth-1 programs over 8 leaves in 6 contexts + depth-2 programs with 2 sibling leaves in 3 contexts (~18 000 programs); statement grammar: 18 templates x 24 operand pairs x comb/sync (~800); "
+                   "corpus of 42 real cores; memory matrix: 3 modes x we-granularity x async/sync/re x init at depth 4 and 5, 2-port and 2-clock variants (55 designs); every state and input of one step per program",
+          "thorough": "expression grammar: depth-2 programs with 6 sibling leaves in all 6 contexts (~74 000 programs); statement grammar: 18 templates x 144 operand pairs x comb/sync/second clock domain (~7 500); corpus and memory matrix as quick"}
 OUTSIDE = "expressions deeper than 2 operators outside the corpus; Instances/tristates/DDR specials (not Verilog-text semantics of the printer); x/z propagation; run-to-run name stability (C02)"
 FUNCS = ["litex.gen.fhdl.verilog.convert", "litex.gen.fhdl.expression._generate_expression", "litex.gen.fhdl.expression._generate_operator", "litex.gen.fhdl.expression._generate_slice",
          "litex.gen.fhdl.expression._generate_constant", "litex.gen.fhdl.verilog._generate_node", "litex.gen.fhdl.verilog._generate_combinatorial_logic_synth", "litex.gen.fhdl.verilog._generate_synchronous_logic",
@@ -562,6 +563,20 @@ def replay_custom(d, prop, path):
             return 1
         print("not reproduced on the current tree")
         return 0
+    if d.get("kind") == "c01_stmt":
+        from vf.veq import Comparison
+        it = tuple(d["item"])
+        m, ios, owners = build_stmt_batch([it])
+        c = Comparison(m, ios, rst_low=False)
+        sig = [s_ for s_ in owners if c.ns.get_name(s_) == d["signal"].replace("p%s_" % d["signal"][1:d["signal"].index("_")], "p0_")]
+        div = dict(kind=d["div_kind"], name=c.ns.get_name(sig[0]) if sig else d["signal"], sig=sig[0] if sig else None, values=d["values"])
+        conf, real, txt = c.replay(div)
+        print("statement program %s, signal %s: simulator %r, verilog text %r, state/inputs %s" % (it, div["name"], real, txt, d["values"]))
+        if conf:
+            print("VIOLATION property=%s replay=%s (%s)" % (prop, path, d["obligation"]))
+            return 1
+        print("not reproduced on the current tree")
+        return 0
     if d.get("kind") == "c01_corpus":
         from vf.veq import Comparison
         C, MM, MM2 = _corpus()
@@ -593,6 +608,9 @@ def jobs(tier):
     n = 12 if tier == "quick" else 15
     for i in range(n):
         js.append(Job("micro_%02d" % i, job_micro, dict(shard=i, nshards=n, tier=tier), cost=60, timeout_s=3000 if tier == "quick" else 20000))
+    ns = 4 if tier == "quick" else 8
+    for i in range(ns):
+        js.append(Job("stmt_%02d" % i, job_stmt, dict(shard=i, nshards=ns, tier=tier), cost=20, timeout_s=3000))
     C, MM, MM2 = _corpus()
     for d in C:
         js.append(Job("corpus_" + d, job_design, dict(design=d, kind="corpus"), cost=30, timeout_s=1500))
@@ -1004,3 +1022,264 @@ def _named(c, s):
         return True
     except Exception:
         return False
+
+
+# ---------------------------------------------------------------------------------------------------------------------
+# statement grammar: assignment targets (slices, Cat, Array), Array sources, If/Elif/Else/Case nests, last-assignment-wins,
+# comb vs sync, non-zero/negative resets, reset_less, two clock domains
+# ---------------------------------------------------------------------------------------------------------------------
+def stmt_exprs(L):
+    from migen import Mux, Cat, Replicate, Constant
+    a, b, c, d, e = L["a"], L["b"], L["c"], L["d"], L["e"]
+    # no arithmetic producers here (their width hazards are the subject of the expression grammar): statements are the subject
+    return [("a", lambda: a), ("b", lambda: b), ("e", lambda: e), ("a&e", lambda: a & e), ("b^d", lambda: b ^ d), ("d", lambda: d), ("a|5", lambda: a | 5),
+            ("Mux(c,a,b)", lambda: Mux(c, a, b)), ("Cat(a,b)", lambda: Cat(a, b)), ("b<d", lambda: b < d), ("-3", lambda: Constant(-3)), ("d>>1", lambda: d >> 1)]
+
+
+def stmt_templates():
+    """each template: name, builder(m, dom, L, E1, E2, pfx) -> list of target signals. dom = m.comb or m.sync"""
+    from migen import Signal, If, Case, Cat, Array, Replicate, Constant
+    T = []
+
+    def tgt(pfx, n, w=6, signed=False, **kw):
+        return Signal((w, signed), name_override="%s_%s" % (pfx, n), **kw)
+
+    def t_slice_target(m, dom, L, E1, E2, pfx):
+        y = tgt(pfx, "y", 8)
+        dom.__iadd__([y.eq(E2()), y[2:5].eq(E1())])
+        return [y]
+    T.append(("slice_target_over_default", t_slice_target))
+
+    def t_bit_target(m, dom, L, E1, E2, pfx):
+        y = tgt(pfx, "y", 5, True)
+        dom.__iadd__([y.eq(E1()), y[4].eq(L["c"]), y[0].eq(E2())])
+        return [y]
+    T.append(("bit_targets_on_signed", t_bit_target))
+
+    def t_cat_target(m, dom, L, E1, E2, pfx):
+        y1, y2, y3 = tgt(pfx, "y1", 3), tgt(pfx, "y2", 2, True), tgt(pfx, "y3", 4)
+        dom.__iadd__([Cat(y1, y2, y3).eq(E1()), If(L["c"], Cat(y3, y1).eq(E2()))])
+        return [y1, y2, y3]
+    T.append(("cat_target", t_cat_target))
+
+    def t_cat_slice_target(m, dom, L, E1, E2, pfx):
+        y1, y2 = tgt(pfx, "y1", 6), tgt(pfx, "y2", 4, True)
+        dom.__iadd__([y1.eq(0), y2.eq(E2()), Cat(y1[1:4], y2[0:2]).eq(E1())])
+        return [y1, y2]
+    T.append(("cat_of_slices_target", t_cat_slice_target))
+
+    def t_array_target(m, dom, L, E1, E2, pfx):
+        ys = [tgt(pfx, "y%d" % i, 4 + i, bool(i & 1)) for i in range(3)]
+        dom.__iadd__([y.eq(E2()) for y in ys] + [Array(ys)[L["a"][:2]].eq(E1())])
+        return ys
+    T.append(("array_target_index_may_exceed", t_array_target))
+
+    def t_array_target4(m, dom, L, E1, E2, pfx):
+        ys = [tgt(pfx, "y%d" % i, 3 + i, bool(i & 1)) for i in range(4)]
+        dom.__iadd__([y.eq(E2()) for y in ys] + [Array(ys)[L["a"][:2]].eq(E1())])
+        return ys
+    T.append(("array_target_pow2", t_array_target4))
+
+    def sgn(x):
+        from migen.fhdl.bitcontainer import value_bits_sign
+        return value_bits_sign(x)[1]
+
+    def t_array_source(m, dom, L, E1, E2, pfx):
+        y = tgt(pfx, "y", 8, True)
+        dom.__iadd__([y.eq(Array([E1(), E2(), L["d"], L["a"]])[L["a"][:2]])])
+        return [y]
+    T.append(("array_source_mixed_types", t_array_source))
+
+    def t_array_source_u(m, dom, L, E1, E2, pfx):
+        y = tgt(pfx, "y", 8, True)
+        dom.__iadd__([y.eq(Array([Cat(E1()), Cat(E2()), L["e"], L["a"]])[L["a"][:2]])])
+        return [y]
+    T.append(("array_source_all_unsigned", t_array_source_u))
+
+    def t_array_source_s(m, dom, L, E1, E2, pfx):
+        y = tgt(pfx, "y", 8, True)
+        e1, e2 = E1(), E2()
+        dom.__iadd__([y.eq(Array([e1 if sgn(e1) else L["b"], e2 if sgn(e2) else L["d"], L["d"], Constant(-2)])[L["a"][:2]])])
+        return [y]
+    T.append(("array_source_all_signed", t_array_source_s))
+
+    def t_array_source_u3(m, dom, L, E1, E2, pfx):
+        y = tgt(pfx, "y", 8)
+        dom.__iadd__([y.eq(Array([Cat(E1()), Cat(E2()), L["e"]])[L["a"][:2]])])
+        return [y]
+    T.append(("array_source_unsigned_index_may_exceed", t_array_source_u3))
+
+    def t_array2d(m, dom, L, E1, E2, pfx):
+        y = tgt(pfx, "y", 7, True)
+        arr = Array([Array([Cat(E1()), L["a"]]), Array([L["e"], Cat(E2())])])
+        dom.__iadd__([y.eq(arr[L["c"]][L["a"][0]])])
+        return [y]
+    T.append(("array_2d_source_unsigned", t_array2d))
+
+    def t_if_chain(m, dom, L, E1, E2, pfx):
+        y, z = tgt(pfx, "y", 6, True), tgt(pfx, "z", 3)
+        dom.__iadd__([If(L["c"], y.eq(E1()), z.eq(1)).Elif(L["a"] == 2, y.eq(E2())).Elif(L["b"] < 0, z.eq(L["a"]), y[1:3].eq(3)).Else(y[0].eq(1), z[2].eq(1))])
+        return [y, z]
+    T.append(("if_elif_else_partial", t_if_chain))
+
+    def t_case_nest(m, dom, L, E1, E2, pfx):
+        y, z = tgt(pfx, "y", 6), tgt(pfx, "z", 4, True)
+        dom.__iadd__([Case(L["a"], {0: [y.eq(E1())], 3: [y.eq(E2()), If(L["c"], z.eq(-1))], 5: [Case(L["b"], {-1: z.eq(E1()), 1: z.eq(2), "default": y.eq(7)})], "default": [z.eq(E2())]})])
+        return [y, z]
+    T.append(("case_nested_signed_inner", t_case_nest))
+
+    def t_case_nodefault(m, dom, L, E1, E2, pfx):
+        y = tgt(pfx, "y", 6)
+        dom.__iadd__([y.eq(E2()), Case(Cat(L["c"], L["a"][0]), {0: y.eq(E1()), 2: y[3:].eq(E1())})])
+        return [y]
+    T.append(("case_without_default", t_case_nodefault))
+
+    def t_last_wins(m, dom, L, E1, E2, pfx):
+        y = tgt(pfx, "y", 6, True)
+        dom.__iadd__([y.eq(E1()), If(L["c"], y.eq(E2())), y[1].eq(L["a"][0]), If(L["a"][1], y.eq(y.reset))])
+        return [y]
+    T.append(("last_assignment_wins", t_last_wins))
+
+    def t_reset_vals(m, dom, L, E1, E2, pfx):
+        y = Signal((6, True), name_override=pfx + "_y", reset=-5)
+        z = Signal(5, name_override=pfx + "_z", reset=19, reset_less=True)
+        dom.__iadd__([If(L["c"], y.eq(E1()), z.eq(z + 1)).Else(z.eq(E2()))])
+        return [y, z]
+    T.append(("resets_negative_and_reset_less", t_reset_vals))
+
+    def t_feedback(m, dom, L, E1, E2, pfx):
+        y = tgt(pfx, "y", 6)
+        z = tgt(pfx, "z", 6, True)
+        m.sync += [y.eq(y + E1()), If(y[5], z.eq(z - E2()))]
+        m.comb += []
+        return [y, z]
+    T.append(("register_feedback", t_feedback))
+
+    def t_replicate_mux(m, dom, L, E1, E2, pfx):
+        y = tgt(pfx, "y", 8)
+        from migen import Mux
+        dom.__iadd__([y.eq(Mux(L["c"], Replicate(E1(), 2), Cat(E2(), L["c"])))])
+        return [y]
+    T.append(("replicate_in_mux", t_replicate_mux))
+    return T
+
+
+def build_stmt_batch(items):
+    """items: list of (template index, e1 index, e2 index, kind) with kind in comb/sync/sync2"""
+    from migen import Module, ClockDomain
+    L = mk_leaves()
+    m = Module()
+    m.clock_domains.cd_sys = ClockDomain()
+    m.clock_domains.cd_other = ClockDomain("other")
+    ex = stmt_exprs(L)
+    T = stmt_templates()
+    owners = {}
+    for k, (ti, i1, i2, kind) in enumerate(items):
+        dom = {"comb": m.comb, "sync": m.sync, "sync2": m.sync.other}[kind]
+        for sg in T[ti][1](m, dom, L, ex[i1][1], ex[i2][1], "p%d" % k):
+            owners[sg] = k
+    ios = set(L.values()) | {m.cd_sys.clk, m.cd_sys.rst, m.cd_other.clk, m.cd_other.rst}
+    return m, ios, owners
+
+
+def all_stmt_items(tier):
+    T = stmt_templates()
+    ne = 12
+    items = []
+    pairs = [(i, j) for i in range(ne) for j in range(ne)] if tier == "thorough" else [(i, (i * 5 + 3 + k) % ne) for i in range(ne) for k in (0, 4)]
+    for ti in range(len(T)):
+        for (i1, i2) in pairs:
+            for kind in ("comb", "sync") + (("sync2",) if tier == "thorough" else ()):
+                if T[ti][0] in ("register_feedback", "resets_negative_and_reset_less") and kind == "comb":
+                    continue
+                items.append((ti, i1, i2, kind))
+    return items
+
+
+def job_stmt(shard, nshards, tier):
+    from vf.veq import Comparison
+    t0 = time.time()
+    items = all_stmt_items(tier)[shard::nshards]
+    T = stmt_templates()
+    L0 = mk_leaves()
+    exn = [n for n, _ in stmt_exprs(L0)]
+    name = "stmt_%02d" % shard
+    nprog = 0
+    neq = 0
+    divs = {}
+    err = None
+    nq = 0
+    B = 40
+    wit = False
+    for i in range(0, len(items), B):
+        batch = items[i:i + B]
+        try:
+            m, ios, owners = build_stmt_batch(batch)
+            c = Comparison(m, ios, rst_low=False)
+            for ph, base in (("", [r == 0 for r in _rsts(c)]), ("_in_reset", [z3.Or(*[r == 1 for r in _rsts(c)])])):
+                c.base = base
+                res = c.run()
+                nq += c.stats["comb"] + c.stats["regs"]
+                if c.stats["unknown"]:
+                    raise RuntimeError("unknown from solver")
+                badk = {}
+                for d in res:
+                    k = owners.get(d.get("sig"))
+                    if k is None:
+                        # helper signals of the lowering (array muxes, slice proxies) have no owner: attribute by name prefix
+                        nm = str(d["name"])
+                        k = int(nm[1:nm.index("_")]) if nm.startswith("p") and "_" in nm and nm[1:nm.index("_")].isdigit() else -1
+                    badk.setdefault(k, []).append(d)
+                for k, ds in badk.items():
+                    d = ([x for x in ds if x["values"] is not None] or ds)[0]
+                    it = batch[k] if k >= 0 else None
+                    key = (T[it[0]][0] if it else "unattributed") + ph
+                    conf = real = txt = None
+                    if d["values"] is not None:
+                        conf, real, txt = c.replay(d)
+                    divs.setdefault(key, []).append(dict(item=it, desc=("%s E1=%s E2=%s %s" % (T[it[0]][0], exn[it[1]], exn[it[2]], it[3])) if it else str(d["name"]), signal=str(d["name"]), kind=d["kind"],
+                                                         values={kk: vv for kk, vv in (d["values"] or {}).items() if vv}, confirmed=conf, real=real, text=txt))
+                if ph == "":
+                    nprog += len(batch)
+                    neq += len(batch) - len([k for k in badk if k >= 0])
+                if not wit and len(c.vres) >= 2:
+                    ks = [k_ for k_ in c.vres if not isinstance(k_, tuple)]
+                    s_ = z3.Solver()
+                    for a_, b_ in zip(ks, ks[1:]):
+                        if c.vres[a_].size() == c.vres[b_].size():
+                            s_.push()
+                            s_.add(c.vres[a_] != c.vres[b_])
+                            if str(s_.check()) == "sat":
+                                wit = True
+                            s_.pop()
+                            if wit:
+                                break
+        except Exception:
+            err = traceback.format_exc()
+            break
+    recs = []
+    rd = rdir()
+    for key, ds in sorted(divs.items()):
+        rec = dict(ob="text_eq_sim/%s" % key, kind="bad", t_s=0, count=len(ds))
+        nc = [d for d in ds if d["confirmed"] is False]
+        if nc:
+            rec.update(verdict="inconclusive", reason="divergence of %s (%s) not reproduced on the real simulator (real=%r text=%r)" % (nc[0]["desc"], nc[0]["signal"], nc[0]["real"], nc[0]["text"]))
+        else:
+            rec.update(verdict="violated", trace=[dict(program=d["desc"], signal=d["signal"], inputs=d["values"], simulator=d["real"], verilog_value=d["text"]) for d in ds[:4]])
+            if rd:
+                os.makedirs(rd, exist_ok=True)
+                p = os.path.join(rd, "%s_%s.json" % (name, "".join(ch if ch.isalnum() else "_" for ch in key)[:60]))
+                d0 = ds[0]
+                json.dump(dict(kind="c01_stmt", harness=name, obligation=rec["ob"], item=d0["item"], signal=d0["signal"], div_kind=d0["kind"], values=d0["values"], simulator=d0["real"], verilog_value=d0["text"],
+                               others=[d["desc"] for d in ds[1:30]]), open(p, "w"), indent=1)
+                rec["replay"] = p
+        recs.append(rec)
+    recs.append(dict(ob="text_eq_sim/all_other_statement_programs", kind="bad", verdict="holds" if neq > 0 and err is None else "inconclusive", reason=(err or "no program decided").splitlines()[-1], t_s=0, count=neq))
+    recs.append(dict(ob="reach_distinguishes_different_signals", kind="witness", verdict="reached" if wit else "unreached", t_s=0))
+    return dict(name=name, cfg=dict(shard=shard, of=nshards, programs=nprog, equal=neq), funcs=FUNCS + ["litex.gen.fhdl.verilog lowering (lower_complex_slices, lower_basics: Array/Cat/slice targets)"], K=1,
+                mode="one-step equivalence TEXT==SIM", records=recs, error=err, paths=nprog, stats=dict(queries=nq, solver_s=round(time.time() - t0, 2), unknown=0, sat=0, unsat=0),
+                wall_s=round(time.time() - t0, 2), programs=nprog, disagreements=sum(len(v) for v in divs.values()))
+
+
+def _rsts(c):
+    return [c.tr.cur[cd.rst] for cd in c.tr.f.clock_domains if cd.rst is not None and cd.rst in c.tr.cur and not z3.is_bv_value(c.tr.cur[cd.rst])]
